@@ -74,7 +74,8 @@ static int tell_if(void *data, const char *key, void *value) {
         if (m) {
             if (write(mod->pubsub_fd[1], &m, sizeof(ps_priv_t *)) != sizeof(ps_priv_t *)) {
                 M_DEBUG("Failed to write message: %s\n", strerror(errno));
-                m_mem_unref(msg);
+                /* Release the copy that could not be delivered ('msg' is the caller's template, not ours) */
+                m_mem_unref(m);
             }
         }
     }
